@@ -18,6 +18,8 @@ import (
 
 var R = stats.New("C12")
 
+func init() { gen.Counted = true }
+
 func TestMain(m *testing.M) { R.Main(m) }
 
 // Fault: XOR masks applied to bytes of the victim frame at offsets >= 3.
